@@ -368,7 +368,7 @@ def run(chk, rng, replay=None):
     distinct = len({json.dumps(j, sort_keys=True) for j in js if np.linalg.norm(np.array(j["x0"]) - np.array([float(Fr(v)) for v in j["xstar"]])) > 1e-3})
     chk.coverage.update({
         "evaluations": len(insts), "distinct_nontrivial": distinct,
-        "rule": "random instances of the five reference families (strictly convex quadratics H = M M' + delta I with cond <= 100: unconstrained, bound-constrained with the minimiser interior / on a face / at a vertex / weakly active, linear equalities; one-variable quadratics on the interval cut out by bounds and 1-2 linear inequalities; a linear objective over a Euclidean ball given as a nonlinear constraint), n 1..5, dyadic data of order one, x0 at distance 0.1..50 from the minimiser in a random direction, default options. Each minimiser is accepted only through the Lean certificate (exact). An instance passes iff status 0, success, violation <= feasibility_tol (1.5e-8) and |x - x*| <= 1e-4 max(1,|x*|) (ball: objective gap <= 10 radius_final |c| and the distance that gap implies). Non-trivial = distinct instance whose x0 is not the minimiser.",
+        "rule": "random instances of the five reference families (strictly convex quadratics H = M M' + delta I with cond <= 100: unconstrained, bound-constrained with the minimiser interior / on a face / at a vertex / weakly active / interior but close to a face of a side narrower than two initial radii with the start beyond the far face, linear equalities; one-variable quadratics on the interval cut out by bounds and 1-2 linear inequalities; a linear objective over a Euclidean ball given as a nonlinear constraint), n 1..5, dyadic data of order one, x0 at distance 0.1..50 from the minimiser in a random direction, default options. Each minimiser is accepted only through the Lean certificate (exact). An instance passes iff status 0, success, violation <= feasibility_tol (1.5e-8) and |x - x*| <= 1e-4 max(1,|x*|) (ball: objective gap <= 10 radius_final |c| and the distance that gap implies). Non-trivial = distinct instance whose x0 is not the minimiser.",
         "samples": js[:2], "certified_minimisers": len(certified), "strata": dict(sorted(strat.items())),
         "worst_relative_distance_by_family": worst, "median_nfev": float(np.median(nfev)) if nfev else None, "failures": len(fails),
     })
